@@ -3,6 +3,7 @@ pub mod c02;
 pub mod c03;
 pub mod c04;
 pub mod c05;
+pub mod c06;
 pub mod c08;
 pub mod c09;
 pub mod c10;
@@ -10,11 +11,12 @@ pub mod c11;
 pub mod c12;
 pub mod c14;
 pub mod c17;
+pub mod c18;
 
 use crate::engine::Property;
 
 pub fn all_ids() -> Vec<&'static str> {
-    vec!["C01", "C02", "C03", "C04", "C05", "C08", "C09", "C10", "C11", "C12", "C14", "C17"]
+    vec!["C01", "C02", "C03", "C04", "C05", "C06", "C08", "C09", "C10", "C11", "C12", "C14", "C17", "C18"]
 }
 
 pub fn get(id: &str) -> Option<Property> {
@@ -24,6 +26,7 @@ pub fn get(id: &str) -> Option<Property> {
         "C03" => Some(c03::property()),
         "C04" => Some(c04::property()),
         "C05" => Some(c05::property()),
+        "C06" => Some(c06::property()),
         "C08" => Some(c08::property()),
         "C09" => Some(c09::property()),
         "C10" => Some(c10::property()),
@@ -31,6 +34,7 @@ pub fn get(id: &str) -> Option<Property> {
         "C12" => Some(c12::property()),
         "C14" => Some(c14::property()),
         "C17" => Some(c17::property()),
+        "C18" => Some(c18::property()),
         _ => None,
     }
 }
